@@ -27,7 +27,7 @@ def items_for(d):
     """JSON descriptions of per-axis index items for an axis of size d."""
     its = [['int', i] for i in range(-d, d)]
     its += [['sl', None, None, None], ['sl', 0, 2, None], ['sl', None, None, -1], ['sl', 1, None, 2]]
-    its += [['a1', [0, -1, 0]], ['a2', [[0, d - 1], [d - 1, -1]]], ['au', [d - 1, 0] if d > 1 else [0]]]
+    its += [['a1', [0, -1, 0]], ['a2', [[0, d - 1], [d - 1, -1]]], ['a2', [list(range(d)) + [0]]], ['au', [d - 1, 0] if d > 1 else [0]]]
     mask = [False] * d
     mask[0] = True
     mask[-1] = True
@@ -77,6 +77,11 @@ def plan(tier, seed):
                 pack.append({'pack': list(m), 'stokes': kind})
     for m in itertools.product([False, True], repeat=4):
         pack.append({'pack': [list(m[:2]), list(m[2:])], 'stokes': 'IQU'})
+    for n in (2, 3):
+        for m in itertools.product([False, True], repeat=n):
+            for kind in ('I', 'IQU'):
+                for trailing in ([3], [2, 2]):
+                    pack.append({'pack': list(m), 'stokes': kind, 'trailing': trailing})
     return [
         {'name': 'single', 'target': TARGET, 'x64': False, 'cases': cases, 'chunk': max(10, len(cases) // 300)},
         {'name': 'trees', 'target': TARGET, 'x64': False, 'cases': tree_cases, 'chunk': 10},
@@ -286,7 +291,7 @@ def check_pack(case, violations, counters):
     f32 = jnp.float32
     mask = np.array(case['pack'], dtype=bool)
     cls = StokesPyTree.class_for(case['stokes'])
-    shape = mask.shape
+    shape = mask.shape + tuple(case.get('trailing', []))   # a mask may address only the leading axes of the leaves
     in_s = cls.structure_for(shape, f32)
     comps = [data(shape, 4 * j) for j in range(len(case['stokes']))]
     x = cls(*[jnp.asarray(c) for c in comps])
